@@ -1,3 +1,4 @@
+import AsModel.ParseIO
 import AsModel.Wire
 import AsModel.Runtime.SetMatch
 import AsModel.Runtime.Offset
@@ -112,6 +113,11 @@ def answerTab (fields : List String) : String :=
         | some es => "[" ++ ",".intercalate (es.map showEntry) ++ "]"
       if sh a == sh b then "same " ++ (if a.isSome then "ok" else "illtyped") else s!"diff spec={sh a} exec={sh b}"
     | _, _, _ => "bad-op"
+  -- parse <token trees> <oracle>: the parser model on the harness's dump of an invocation
+  | ["parse", ts, orc] =>
+    match (SExp.parse ts).bind readTTs, (SExp.parse orc).bind readOracle with
+    | some ts, some o => showOutcome (parseAssert o ts (2 * ttCount ts + 16) 0)
+    | _, _ => "bad-op"
   | _ => "bad-op"
 
 def answer (line : String) : String :=
